@@ -77,9 +77,16 @@ def probe_registration(violation):
 
 
 def _validators():
+    from th import PathHolder
     from d42.substitution import SubstitutorValidator
-    from d42.validation import Validator
-    return {"Plain": Validator(), "Subst": SubstitutorValidator()}
+    from d42.validation import ValidationResult, Validator
+
+    class CountingResult(ValidationResult):
+        """a caller's own result class (validation_result_factory)"""
+
+    # "Factory": a validator configured by its user - own path root, own result class
+    return {"Plain": Validator(), "Subst": SubstitutorValidator(),
+            "Factory": Validator(path_holder_factory=lambda: PathHolder("cfg"), validation_result_factory=CountingResult)}
 
 
 def _observe_validate(s, validator, v, root=None):
@@ -125,7 +132,7 @@ def _vterm(mode, st, v, kind, payload, kt):
         obs = "(Ok " + absn.clist([absn.cerror(e, kt) for e in payload]) + ")"
     else:
         obs = f"(Raise {absn.cexn(payload)})"
-    return f"({mode}, {st}, {vt}, {obs})"
+    return f"({'Plain' if mode == 'Factory' else mode}, {st}, {vt}, {obs})"    # the model has two validators
 
 
 def _outcome(fn):
@@ -242,7 +249,7 @@ def run(ctx):
 
             # ---- validation, both validators
             for origin, v in vals:
-                for mode in (("Plain", "Subst") if r.random() < 0.5 else ("Plain",)):
+                for mode in (("Plain", "Subst") if r.random() < 0.5 else (("Plain", "Factory") if r.random() < 0.4 else ("Plain",))):
                     evaluations += 1
                     oracle_cases += 1
                     root = "root" if r.random() < 0.3 else None      # a caller-supplied empty path with its own root name
